@@ -1,6 +1,8 @@
 package main
 
 import (
+	"math"
+
 	"unsafe"
 
 	"github.com/paulmach/orb"
@@ -322,6 +324,40 @@ func init() {
 				}
 				e["nt"] = 1
 				c.emit(e)
+				// a clone that differs from the original by the least possible amount in one coordinate (and by a relative 1e-14,
+				// 1e-12) at small and at large magnitudes: not equal
+				if pts := flatPoints(a); len(pts) > 0 && !hasNilSlice(a) {
+					if _, isB := a.(orb.Bound); !isB {
+						scale := []float64{1, 1000, 1e8}[c.rng.Intn(3)]
+						big := mapGeom(a, func(p orb.Point) orb.Point { return orb.Point{p[0]*scale + 0.5, p[1]*scale - 0.25} })
+						k, n := c.rng.Intn(len(pts)), 0
+						mode := c.rng.Intn(3)
+						near := mapGeom(big, func(p orb.Point) orb.Point {
+							if n == k {
+								d := c.rng.Intn(2)
+								switch mode {
+								case 0:
+									p[d] = math.Nextafter(p[d], math.Inf(1))
+								case 1:
+									p[d] = p[d] * (1 + 1e-14)
+								default:
+									p[d] = p[d] * (1 - 1e-12)
+								}
+							}
+							n++
+							return p
+						})
+						eu := map[string]interface{}{"k": "equlp", "nt": 1, "differs": b2i(geomBits(big) != geomBits(near))}
+						site = guard(func() {
+							eu["ab"], eu["ba"], eu["aa"] = orb.Equal(big, near), orb.Equal(near, big), orb.Equal(near, near)
+						})
+						if site != "" {
+							c.emit(panicEvent("orb.Equal", site, eu))
+						} else {
+							c.emit(eu)
+						}
+					}
+				}
 				// a third value for transitivity
 				cc := orb.Clone(b)
 				if c.rng.Intn(3) == 0 {
@@ -353,12 +389,30 @@ func init() {
 				}
 				c.emit(e)
 			case 4: // Bound methods
-				mk := func() orb.Bound {
+				var mk func() orb.Bound
+				mk = func() orb.Bound {
 					mp := orb.MultiPoint{}
 					for j := 0; j < c.rng.Intn(3); j++ {
 						mp = append(mp, orb.Point{float64(c.rng.Intn(9) - 4), float64(c.rng.Intn(9) - 4)})
 					}
 					return mp.Bound()
+				}
+				// empty bounds that are not the one an empty geometry gives: a box padded inwards beyond its size, Min and Max
+				// the wrong way round in one coordinate or in both - empty is empty, whatever its corners say
+				mk0 := mk
+				mk = func() orb.Bound {
+					b := mk0()
+					switch c.rng.Intn(8) {
+					case 0:
+						return orb.Bound{Min: orb.Point{float64(1 + c.rng.Intn(3)), -2}, Max: orb.Point{float64(-c.rng.Intn(3)), 3}}
+					case 1:
+						return orb.Bound{Min: orb.Point{-2, float64(2 + c.rng.Intn(3))}, Max: orb.Point{3, float64(1 - c.rng.Intn(3))}}
+					case 2:
+						if !b.IsEmpty() {
+							return b.Pad(-float64(5 + c.rng.Intn(4)))
+						}
+					}
+					return b
 				}
 				a, b, cc := mk(), mk(), mk()
 				p := orb.Point{float64(c.rng.Intn(9) - 4), float64(c.rng.Intn(9) - 4)}
@@ -415,6 +469,17 @@ func init() {
 					w := r.Clone()
 					w.Reverse()
 					e2["orev"] = int(w.Orientation())
+					// the same ring far from the origin (an exact translation: integer coordinates): which way it winds does
+					// not depend on where it lies
+					off := []float64{1e8, 1 << 26, 1 << 27, -(1 << 30), 1e12, 1 << 45}[c.rng.Intn(6)]
+					far := r.Clone()
+					for j := range far {
+						far[j][0] += off
+						far[j][1] -= off
+					}
+					e2["ofar"] = int(far.Orientation())
+					far.Reverse()
+					e2["ofarrev"] = int(far.Orientation())
 				})
 				if site != "" {
 					c.emit(panicEvent("Ring.Orientation", site, e2))
